@@ -39,7 +39,7 @@ def strategy(draw, tier="quick"):
             sched="rr", allow_rels=True, rel_kinds=("conf",), allow_same_trans_conf=False, allow_if=False,
             allow_switch=False, allow_fsm=False, allow_chain=False, allow_validate=False, allow_data=False,
             allow_alias=False, allow_mods=False, min_trans=2, max_trans=5, max_methods=3, max_space=1, nvals=1,
-            nonex_rate=1, min_rels=0,
+            nonex_rate=1, min_rels=0, allow_tops=False, inject_shapes=False,
         )
     )
     an = analyze(spec)
